@@ -318,7 +318,16 @@ Proof.
 Qed.
 
 (** ** the fragment *)
-Definition frag_pexpr (pe : pexpr) : bool := match pe with EPlain _ => true | _ => false end.
+Definition frag_pexpr (pe : pexpr) : bool := match pe with EPlain _ | ELen _ => true | _ => false end.
+
+(** ${#p}: the model counts characters (the code after repair 68104b7), as the specification does *)
+Lemma poly_len_eq p : poly_len (expand_param e p) = len_of e p.
+Proof.
+  unfold len_of. destruct (is_list_param p) eqn:Hl.
+  - rewrite (expand_param_list p Hl). unfold poly_len, exp_of_array; cbn [from_array fields]. apply map_length.
+  - rewrite (expand_param_nonlist p Hl). unfold poly_len; cbn [from_array fields fold_left].
+    unfold field_str; cbn. now rewrite app_nil_r.
+Qed.
 Definition frag_inner (p : wpiece) : bool :=
   match p with WDQ _ => false | WParam pe => frag_pexpr pe | _ => true end.
 Definition frag_piece (p : wpiece) : bool :=
@@ -346,7 +355,9 @@ Proof.
   - rewrite (dq_out_single _ _ (Unsplittable (o_ansic o s))) by reflexivity. apply equiv_refl.
   - destruct (o_tilde o t) as [v|]; cbn [agree]; [|reflexivity].
     rewrite (dq_out_single _ _ (Unsplittable v)) by reflexivity. apply equiv_refl.
-  - destruct pe as [p| | |]; cbn [frag_pexpr] in Hf; try discriminate.
+  - destruct pe as [p| | |p]; cbn [frag_pexpr] in Hf; try discriminate;
+      [|cbn [expand_pexpr pexpr_items agree]; rewrite poly_len_eq;
+        rewrite (dq_out_single _ _ (Splittable (show_nat_str (len_of e p)))) by reflexivity; apply equiv_refl].
     cbn [expand_pexpr pexpr_items agree]. unfold param_items.
     destruct (is_list_param p) eqn:Hl.
     + rewrite (expand_param_list p Hl). unfold dq_out, to_append, exp_of_array. cbn [concatenate fields].
@@ -425,7 +436,9 @@ Proof.
       cbn [andb] in Hk. destruct inner; [exact H2 | discriminate].
   - destruct (o_tilde o t) as [v|] eqn:Ht; cbn [expand_piece piece_items agree]; rewrite Ht; cbn [agree]; [|reflexivity].
     unfold flat; cbn. rewrite app_nil_r. apply equiv_refl.
-  - destruct pe as [p| | |]; cbn [frag_pexpr] in Hf; try discriminate.
+  - destruct pe as [p| | |p]; cbn [frag_pexpr] in Hf; try discriminate;
+      [|cbn [expand_piece expand_pexpr piece_items pexpr_items agree]; rewrite poly_len_eq;
+        unfold flat; cbn; rewrite app_nil_r; apply equiv_refl].
     cbn [expand_piece expand_pexpr piece_items pexpr_items agree]. unfold param_items.
     destruct (is_list_param p) eqn:Hl.
     + rewrite (expand_param_list p Hl). unfold exp_of_array; cbn [fields].
